@@ -82,9 +82,9 @@ def violation (a b : Opts) (st : State) : Option String :=
     match cd with
     | some f => some ("unhashed:" ++ f)
     | none => (metaDiff a.repo b.repo).map ("meta-not-applied:" ++ ·)
-  | .meta =>
+  | .metaOnly =>
     match cd with
-    | some f => some ("meta-only-but-differs:" ++ f)
+    | some f => some ("unhashed:" ++ f)
     | none => none
   | s =>
     match cd with
